@@ -67,6 +67,8 @@ def check_result(case):
         text = str(lr)
     except SQLLineageException as e:
         return None, {"raises": type(e).__name__}
+    except Exception as e:  # noqa  an escaping internal error (e.g. K-rename-multi NetworkXError) is C10's / C03's matter: no result to check here
+        return None, {"raises": "escape:" + type(e).__name__}
     stats = {"table_nodes": 0, "column_edges": 0}
     for level, elems in (("table", tab), ("column", col)):
         nodes = [e["data"] for e in elems if "source" not in e["data"]]
